@@ -99,14 +99,40 @@ static void iokinds_pass(int reps) {
     }
 }
 
+// ownership of the payload: every element of an object array owns its own storage. Each element's whole payload is filled
+// with its own pseudo-random stream, in index order, and read back afterwards (elements sharing or overlapping storage, or a
+// payload shorter than its dimensions say, show up as a mismatch or a guard/sanitizer report). Opaque types have no walker.
+struct Pay { uint32_t x; bool check, ok = true; uint64_t words = 0; Pay(uint32_t seed, bool check) : x(seed * 2654435761u + 12345u), check(check) {}
+    inline void w(int32_t &v) { x = x * 1664525u + 1013904223u; words++; if (check) ok = ok && v == (int32_t) x; else v = (int32_t) x; } };
+static int ctx_n, ctx_k, ctx_N, ctx_kpl, ctx_ks_rows;
+template<class T> static void walk(T *, Pay &) {}
+static void walk(IntPolynomial *o, Pay &p) { for (int j = 0; j < o->N; j++) p.w(o->coefs[j]); }
+static void walk(TorusPolynomial *o, Pay &p) { for (int j = 0; j < o->N; j++) p.w(o->coefsT[j]); }
+static void walk(LweKey *o, Pay &p) { for (int j = 0; j < o->params->n; j++) p.w(o->key[j]); }
+static void walk(LweSample *o, Pay &p) { for (int j = 0; j < ctx_n; j++) p.w(o->a[j]); p.w(o->b); }
+static void walk(TLweKey *o, Pay &p) { for (int i = 0; i < o->params->k; i++) walk(&o->key[i], p); }
+static void walk(TLweSample *o, Pay &p) { for (int i = 0; i <= o->k; i++) walk(&o->a[i], p); }
+static void walk(TGswKey *o, Pay &p) { for (int i = 0; i < o->params->tlwe_params->k; i++) walk(&o->key[i], p); }
+static void walk(TGswSample *o, Pay &p) { for (int r = 0; r < ctx_kpl; r++) walk(&o->all_sample[r], p); }
+static void walk(LweKeySwitchKey *o, Pay &p) { for (int r = 0; r < o->n * o->t * o->base; r++) { LweSample *sm = &o->ks0_raw[r]; for (int j = 0; j < o->out_params->n; j++) p.w(sm->a[j]); p.w(sm->b); } }
+static void walk(LweBootstrappingKey *o, Pay &p) { for (int i = 0; i < o->in_out_params->n; i++) walk(&o->bk[i], p); walk(o->ks, p); }
+template<class T> static void ownership(T *arr, int count, const char *type, const char *how) {
+    for (int e = 0; e < count; e++) { Pay f(e + 1, false); walk(arr + e, f); }
+    uint64_t words = 0; bool ok = true;
+    for (int e = 0; e < count; e++) { Pay c(e + 1, true); walk(arr + e, c); ok = ok && c.ok; words += c.words; }
+    if (!words) return;
+    out.evaluations++;
+    if (!ok) out.viol(std::string("lifecycle:array-elements-share-storage:") + type, J().s("type", type).s("allocated_by", how).i("elements", count).u("payload_words", words));
+}
+
 // every allocator / constructor / destructor / deallocator family of the public API, single objects and arrays, in the four
 // documented pairings: new/delete, new_array/delete_array, alloc+init/destroy+free, alloc_array+init_array/destroy_array+free_array
 #define SWEEP(T, ...) do { \
         VH_OP("allocators:" #T); \
         { T *o = new_##T(__VA_ARGS__); delete_##T(o); } \
-        { T *o = new_##T##_array(3, __VA_ARGS__); delete_##T##_array(3, o); } \
-        { T *o = alloc_##T(); init_##T(o, __VA_ARGS__); destroy_##T(o); free_##T(o); } \
-        { T *o = alloc_##T##_array(2); init_##T##_array(2, o, __VA_ARGS__); destroy_##T##_array(2, o); free_##T##_array(2, o); } \
+        { T *o = new_##T##_array(3, __VA_ARGS__); ownership(o, 3, #T, "new_" #T "_array"); delete_##T##_array(3, o); } \
+        { T *o = alloc_##T(); init_##T(o, __VA_ARGS__); ownership(o, 1, #T, "alloc+init"); destroy_##T(o); free_##T(o); } \
+        { T *o = alloc_##T##_array(2); init_##T##_array(2, o, __VA_ARGS__); ownership(o, 2, #T, "alloc_array+init_array"); destroy_##T##_array(2, o); free_##T##_array(2, o); } \
         { T *o = alloc_##T##_array(1); init_##T(o, __VA_ARGS__); destroy_##T(o); free_##T##_array(1, o); } \
         out.evaluations += 5; out.cell("allocators:" #T); } while (0)
 
@@ -116,6 +142,7 @@ static void allocator_sweep(int reps) {
         LweParams *lp = new_LweParams(n, 1e-5, 0.1);
         TLweParams *tp = new_TLweParams(1024, k, 1e-9, 0.1);
         TGswParams *gp = new_TGswParams(l, Bgbit, tp);
+        ctx_n = n; ctx_k = k; ctx_N = 1024; ctx_kpl = (k + 1) * l;
         SWEEP(LweParams, n, 1e-5, 0.1);
         SWEEP(TLweParams, 1024, k, 1e-9, 0.1);
         SWEEP(TGswParams, l, Bgbit, tp);
@@ -136,7 +163,7 @@ static void allocator_sweep(int reps) {
     // gate-API allocation functions
     { TFheGateBootstrappingParameterSet *p = new_default_gate_bootstrapping_parameters(80); LweSample *c = new_gate_bootstrapping_ciphertext(p), *a = new_gate_bootstrapping_ciphertext_array(5, p);
       delete_gate_bootstrapping_ciphertext_array(5, a); delete_gate_bootstrapping_ciphertext(c); delete_gate_bootstrapping_parameters(p); out.evaluations += 3; out.cell("allocators:gate-api"); }
-    out.sample(J().s("mode", "allocator families: new/delete, new_array/delete_array, alloc+init/destroy+free, array variants, mixed").i("reps", reps).i("types", 17));
+    out.sample(J().s("mode", "allocator families: new/delete, new_array/delete_array, alloc+init/destroy+free, array variants, mixed").i("reps", reps).i("types", 17).s("ownership", "array elements filled with their own stream in index order and read back (10 types with a visible payload)"));
 }
 
 // thread create/exit histories: per-thread FFT state must be released when the thread exits
